@@ -338,9 +338,15 @@ def one_doc(ctx, sut, fpm, idx, given=None, generated=False):
             ctx.witness("class_eq_raised", case, f"{name}: {exc!r}")
             return
         if not equal:
+            def _text(cls):
+                try:
+                    return cls.python()[:300]
+                except Exception as err:  # pylint: disable=broad-except
+                    return f"<its source cannot be rendered: {err!r}>"
+
             ctx.witness("class_unequal", case,
-                        f"generated class {name} != parsed class: {gen_cls.python()[:300]!r} vs "
-                        f"{par_cls.python()[:300]!r}", finding=finding)
+                        f"generated class {name} != parsed class: {_text(gen_cls)!r} vs {_text(par_cls)!r}",
+                        finding=finding)
             return
         left, right = fpm.fp_tree(gen_cls), fpm.fp_tree(par_cls)
         if left != right:
